@@ -69,6 +69,7 @@ type c34val struct {
 	val   string
 	sess  int
 	own   []bool // keys currently holding this value on the server, as far as the harness has seen
+	lost  []bool // keys that somebody else took away (external DEL, forced SET) while they held this value
 	acq   int    // successful key acquisitions
 	owner *c34hold
 }
@@ -151,16 +152,11 @@ func c34body(c c34cfg) func(x *vsched.Exec) {
 		closed := make([]bool, c.lockers)
 		evDone := false
 		evWhat := ""
-		forced := false
-		for _, t := range c.thr {
-			if t.op == "force" {
-				forced = true
-			}
-		}
 
-		owned := func(v *c34val) int {
+		// lostKeys: with 2m-1 keys, a value that lost m keys to others can never own a majority again
+		lostKeys := func(v *c34val) int {
 			n := 0
-			for _, o := range v.own {
+			for _, o := range v.lost {
 				if o {
 					n++
 				}
@@ -173,7 +169,7 @@ func c34body(c c34cfg) func(x *vsched.Exec) {
 				if !h.acquired || h.released {
 					continue
 				}
-				if !h.lostMaj && ((evDone && (c.event == "del" || c.event == "del1")) || forced) && owned(h.v) < int(c.majority) {
+				if !h.lostMaj && lostKeys(h.v) >= int(c.majority) {
 					h.lostMaj, h.lostAt = true, x.Elapsed()
 				}
 				if !h.must && !h.pastAwait && (h.lostMaj || (clients[h.locker].Lost && c.event == "lose") || closed[h.locker]) {
@@ -191,7 +187,7 @@ func c34body(c c34cfg) func(x *vsched.Exec) {
 		checkExcl := func(where string) {
 			n := 0
 			for _, h := range holders {
-				if h.acquired && !h.lostMaj && c34live(h.ctx) {
+				if h.acquired && lostKeys(h.v) == 0 && c34live(h.ctx) { // holders robbed of keys by others are outside the precondition
 					n++
 				}
 			}
@@ -210,7 +206,7 @@ func c34body(c c34cfg) func(x *vsched.Exec) {
 			for _, k := range keys[:n] {
 				if g := srv.Do("GET", k); g.T == '$' {
 					if v := findVal(g.S); v != nil {
-						v.own[keyIdx(k)] = false
+						v.own[keyIdx(k)], v.lost[keyIdx(k)] = false, true
 					}
 				}
 				srv.Do("DEL", k)
@@ -281,11 +277,13 @@ func c34body(c c34cfg) func(x *vsched.Exec) {
 					if r.T == '+' {
 						v := findVal(val)
 						if v == nil {
-							v = &c34val{val: val, sess: li, own: make([]bool, total)}
+							v = &c34val{val: val, sess: li, own: make([]bool, total), lost: make([]bool, total)}
 							vals = append(vals, v)
 						}
 						for _, o := range vals {
-							o.own[ki] = false // a forced SET overwrites the previous owner's value
+							if o.own[ki] && o != v { // a forced SET overwrites the previous owner's value
+								o.own[ki], o.lost[ki] = false, true
+							}
 						}
 						v.own[ki] = true
 						v.acq++
